@@ -342,6 +342,33 @@ def generate(rng, tier):
         raw = rng.random() < 0.3
         for which in ('all', 'small', 'large'):
             cases.append(_match_case(which, ver, ipv, ipform, cands, raw))
+    # long candidate lists (more candidates than there are prefix lengths): every supernet of the address, the
+    # blocks of the *other* family whose integer bounds coincide with those supernets (::a.b.c.d/(96+p) against
+    # a.b.c.d/p), near misses and duplicates, shuffled
+    for _ in range(12 * mult):
+        ver = rng.choice((4, 4, 6))
+        w = W[ver]
+        m = (1 << w) - 1
+        ipv = rng.choice([rand_value(rng, 32), 0x0a030405, m if ver == 4 else rand_value(rng, 32), rand_value(rng, w)])
+        ipv &= m
+        cands = []
+        for p in range(0, w + 1):
+            if rng.random() < 0.8:
+                cands.append((ver, ipv | rng.getrandbits(3) if p < w - 3 else ipv, p, 'net'))
+        if ipv <= 0xffffffff:
+            ov = 10 - ver
+            for p in range(0, 33):
+                if rng.random() < 0.7:
+                    cands.append((ov, ipv, p + (96 if ov == 6 else 0), 'net') if ov == 6 else (ov, ipv, p, 'net'))
+        for _k in range(rng.randrange(20, 90)):
+            v, p = rand_block(rng, ver)
+            cands.append((ver, v, p, 'net'))
+            cands.append((ver, min(max(ipv + rng.choice([1, -1, 256, -256, 1 << 16]), 0), m), rng.choice([w, w - 1, w - 8]), 'net'))
+        rng.shuffle(cands)
+        for which in ('all', 'small', 'large'):
+            c = _match_case(which, ver, ipv, 'obj', cands)
+            c.tag = 'match-long/%s' % which
+            cases.append(c)
     return cases
 
 
